@@ -248,9 +248,9 @@ class Criteria(Harness):
         if fn == 'AVERAGEIF':
             return self.parse_with(env, 'AVERAGEIF(vcells,vcrit,vitems)', vs)
         if p['two']:
-            vs['vcells2'] = inp['cells2']
-            vs['vcrit2'] = crit_text(env, p['op2'], inp['k2'])
-            return self.parse_with(env, '%s(vitems,vcells,vcrit,vcells2,vcrit2)' % fn, vs)
+            vs['vcellsb'] = inp['cells2']
+            vs['vcritb'] = crit_text(env, p['op2'], inp['k2'])
+            return self.parse_with(env, '%s(vitems,vcells,vcrit,vcellsb,vcritb)' % fn, vs)
         return self.parse_with(env, '%s(vitems,vcells,vcrit)' % fn, vs)
 
     def post(self, env, inp, out, p):
